@@ -617,6 +617,38 @@ func faultThread(c *Cluster, s *vsched.Sched, spec ScenarioSpec) {
 			}
 			_ = c.SC.SwapNode(c.Nodes[from].Addr, c.Nodes["n4"].Addr)
 		}
+	case "swap-snapshot-restart":
+		// data first, then a follower is swapped for an empty node that must be restored from a
+		// snapshot (the transfer may break: Breaks); the new node is then restarted
+		w := func(key, val string) {
+			if l, _ := c.LeaderByStatus(); l != "" {
+				op := &ClientOp{Client: 1, Kind: "put", Key: key, Value: val, Invoke: s.Steps(), Node: l}
+				specObs.Ops = append(specObs.Ops, op)
+				if resp, err := c.Write(l, put(key, val)); err == nil && resp.Puts[0].Status == proto.Status_OK {
+					op.OK, op.Version, op.Status = true, resp.Puts[0].Version.VersionId, "OK"
+				} else {
+					op.Unknown = true
+				}
+				op.Return = s.Steps()
+			}
+		}
+		w("k0", "before-swap")
+		if c.SC != nil {
+			md, _ := c.StoredMetadata()
+			from := ""
+			for _, e := range md.Ensemble {
+				if md.Leader == nil || e.Internal != md.Leader.Internal {
+					from = e.Internal
+				}
+			}
+			_ = c.SC.SwapNode(c.Nodes[from].Addr, c.Nodes["n4"].Addr)
+		}
+		s.Sleep(3 * time.Second)
+		c.CrashNode("n4")
+		s.Sleep(500 * time.Millisecond)
+		c.StartNode("n4")
+		s.Sleep(3 * time.Second)
+		w("k1", "after-restart")
 	case "swap-snapshot-lead":
 		swapSnapshotLead(c, s, specObs)
 	case "failed-become-leader":
